@@ -37,8 +37,21 @@ def emit_subject_methods(d: Decl):
     if is_str:
         if hv:
             m.append("fn ctor_str(&self, raw: &str) -> Option<nvrt::Obs> { Some(nvrt::obs(move || TT::try_new(raw), inner_of, vname)) }")
+            m.append("""fn ctor_into_variants(&self, raw: &str) -> Vec<(&'static str, nvrt::Obs)> {
+            let b: Box<str> = raw.into(); let c: ::std::borrow::Cow<'_, str> = ::std::borrow::Cow::Borrowed(raw); let r: &String = &raw.to_string();
+            let mut v = vec![("Box<str>", nvrt::obs(move || TT::try_new(b), inner_of, vname)), ("Cow<str>", nvrt::obs(move || TT::try_new(c), inner_of, vname)),
+                             ("&String", nvrt::obs(move || TT::try_new(r), inner_of, vname))];
+            let mut it = raw.chars(); if let (Some(ch), None) = (it.next(), it.next()) { v.push(("char", nvrt::obs(move || TT::try_new(ch), inner_of, vname))); }
+            v
+        }""")
         else:
             m.append("fn ctor_str(&self, raw: &str) -> Option<nvrt::Obs> { Some(nvrt::obs_ok(move || TT::new(raw), inner_of)) }")
+            m.append("""fn ctor_into_variants(&self, raw: &str) -> Vec<(&'static str, nvrt::Obs)> {
+            let b: Box<str> = raw.into(); let c: ::std::borrow::Cow<'_, str> = ::std::borrow::Cow::Borrowed(raw); let r: &String = &raw.to_string();
+            let mut v = vec![("Box<str>", nvrt::obs_ok(move || TT::new(b), inner_of)), ("Cow<str>", nvrt::obs_ok(move || TT::new(c), inner_of)), ("&String", nvrt::obs_ok(move || TT::new(r), inner_of))];
+            let mut it = raw.chars(); if let (Some(ch), None) = (it.next(), it.next()) { v.push(("char", nvrt::obs_ok(move || TT::new(ch), inner_of))); }
+            v
+        }""")
     infall = "|e: &::core::convert::Infallible| match *e {}"
     if "TryFrom" in der:
         vn = "vname" if hv else infall
